@@ -12,8 +12,10 @@ ELEMENT_METHODS = {'get', 'pop', 'items', 'values', 'keys', 'setdefault', 'popit
 
 
 class Alias(object):
-    def __init__(self, tainted_names):
+    def __init__(self, tainted_names, elems_only=()):
         self.tainted = set(tainted_names)
+        # names bound to a container made by the caller for this call (not itself visible outside) whose elements may be
+        self.elems_only = set(elems_only) - self.tainted
 
     def self_(self, t):
         """may t denote a caller-visible (tainted) object itself?"""
@@ -39,7 +41,7 @@ class Alias(object):
         """may the elements / fields of t be caller-visible objects?"""
         k = t[0]
         if k == 'name':
-            return t[1] in self.tainted
+            return t[1] in self.tainted or t[1] in self.elems_only
         if k in ('attr', 'sub', 'elem', 'unpack', 'star'):
             return self.self_(t[1]) or self.elems(t[1])
         if k in ('tuple', 'list', 'set'):
@@ -60,13 +62,20 @@ class Alias(object):
         return False
 
 
-def mutations(fn, tainted, self_is_helper=False):
-    """-> list of (node, target term, what) where a tainted object is modified inside fn"""
-    al = Alias(tainted)
+def mutations(fn, tainted, self_is_helper=False, elems_only=(), calls_out=None):
+    """-> list of (node, target term, what) where a tainted object is modified inside fn.  calls_out, if given, collects
+    (call term, self-taint per positional arg, element-taint per positional arg, keyword taints) for every call event."""
+    al = Alias(tainted, elems_only)
     out = []
     seen = set()
     for st, o in SymExec(fn, unroll=1).run():
         for e in st.events:
+            if e[0] == 'in-comp':
+                e = e[1:]
+            if calls_out is not None and e[0] == 'call':
+                t = e[1]
+                calls_out.append((t, [al.self_(a) for a in t[2]], [al.self_(a) or al.elems(a) for a in t[2]],
+                                  {k: (al.self_(v), al.self_(v) or al.elems(v)) for k, v in t[3] if k is not None}))
             tgt = what = None
             if e[0] == 'setattr':
                 tgt, what = e[1], 'attribute .%s assigned' % e[2]
